@@ -324,3 +324,24 @@ Print Assumptions C12_wing_pass_disjoint_from_earlier_wings.
 (* non-vacuity: a two-sided wing with outer panels and a one-sided fin carrying a two-sided T-tail give three wings (Proofs/WingsP.v) *)
 Definition C12_wing_example := wings_example.
 Check C12_wing_example.
+
+(* order in which the segments of the "wings" dictionary are attached (airplane.py _load_wing_segments, Model/LoadOrder.v): the procedure
+   only permutes the segments; when its second loop stops because nothing moves, no segment stands in front of the segment it connects
+   to - every segment finds its parent attached -; an order in which that already holds is left as it is. *)
+From MuxV Require Import Model.LoadOrder Proofs.LoadOrderP.
+From Coq Require Import Permutation.
+Theorem C12_load_order_permutes : forall input, Permutation input (load_order input).
+Proof. exact load_order_perm. Qed.
+Print Assumptions C12_load_order_permutes.
+
+Theorem C12_load_order_parents_first : forall l, settled l = true ->
+  forall pre x post, l = pre ++ x :: post -> forall y, In y post -> sID y <> spar x.
+Proof. exact settled_spec. Qed.
+Print Assumptions C12_load_order_parents_first.
+
+Theorem C12_load_order_keeps_settled_orders : forall fuel l, settled l = true -> fixup fuel l = l.
+Proof. exact fixup_settled. Qed.
+Print Assumptions C12_load_order_keeps_settled_orders.
+
+Definition C12_load_order_example := load_order_example.
+Check C12_load_order_example.
